@@ -31,6 +31,14 @@ def _e2(text, ref):
 
 
 CLAIMED = {
+    "C02": _e2("Real MemoryMap.add_resource/add_window/align_to/freeze and the range map beneath run on symbolic "
+               "addresses and sizes; every path of every enumerated call-kind sequence (length 2 exhaustively, 3-4 "
+               "sampled / exhaustive in the thorough tier) is explored and disjointness, bounds, size, reporting, "
+               "cursor rule, exact explicit placement and failure atomicity are proved on every path.",
+               "DESIGN.md section 4 C02"),
+    "C03": _e2("Real all_resources/find_resource/decode_address/_translate on enumerated tree shapes with symbolic "
+               "placements and a symbolic decoded address, against a closed-form composition oracle.",
+               "DESIGN.md section 4 C03"),
     "C04": _e1("Real Multiplexer.elaborate (with the real shadow-balancing code) per layout: read-strobe exactness and "
                "zero-when-idle for ALL input sequences (1-2 frames from an arbitrary state), atomic snapshot of an "
                "n-chunk read transaction over 2n+2 frames from an arbitrary state with register values changing every "
@@ -53,6 +61,10 @@ CLAIMED = {
     "C10": _e1("Reset-rooted BMC of the bridge against a reference sequencer for 2-3 complete transfers with symbolic "
                "requests, gaps, select masks and back-to-back transfers, plus all-state clauses (no strobe outside a "
                "transfer, single-cycle ack) from a free state.", "DESIGN.md section 4 C10"),
+    "C11": _e1("Real Register.__init__/__iter__/elaborate and flatten() on field collections from a grammar; one free "
+               "frame decides packing, zero-elsewhere and strobe routing for every value against a declaration-order "
+               "walk of the input structure; the finite access-compatibility table is executed.",
+               "DESIGN.md section 4 C11"),
     "C12": _e1("Exact next-state and output functions of every field action from an arbitrary state (2 frames) and "
                "the reset value, per enumerated shape/init: a bisimulation with the documented automaton, hence all "
                "histories.", "DESIGN.md section 4 C12"),
@@ -60,6 +72,14 @@ CLAIMED = {
                "k = event_map.index(src), outgoing line, for all trigger assignments of n sources; the event-map "
                "numbering is executed symbolically (E2) over call sequences with a symbolic source choice.",
                "DESIGN.md section 4 C13"),
+    "C17": _e2("Real Builder.add/Cluster/Index/freeze/as_memory_map with real registers of enumerated widths and "
+               "SYMBOLIC offsets: explicit placement, implicit first-size-aligned placement, power-of-two sizes, scope "
+               "names, no accepted overlap/overflow/name collision, frozen builder - proved on every path.",
+               "DESIGN.md section 4 C17"),
+    "C18": _e2("Real _Namespace / MemoryMap.Name / add_resource / add_window on names whose parts are symbolic choices "
+               "from a 6-symbol alphabet (shared prefixes, '0' vs 0), as resources, named windows and absorbed "
+               "anonymous windows, incl. adds failing for non-name reasons; accepted <=> no prefix conflict.",
+               "DESIGN.md section 4 C18"),
     "C15": _e1("Exact one-step functions for ack, read data and the whole memory array (array is part of the free "
                "state), plus the construction-time image from reset: read-your-writes over all histories.",
                "DESIGN.md section 4 C15"),
